@@ -12,8 +12,21 @@
                                        (coins: the coins of those measurements) and the physical id is released)
      ARecv i app a sk                 host i polls its node's list for socket sk (cmd_epr_recv: netqasm_get_epr_recv, popleft);
                                       a delivered half is entered into qubitList under the smallest unused physical id
-                                      and mapped to the virtual address a; nothing delivered: nothing changes (timeout)
-   n_pend = the per-node per-socket deques of delivered, unclaimed halves, in arrival order.  As in the code an entry
+                                      and mapped to the virtual address a; nothing delivered: nothing changes (timeout);
+                                      the head of the deque is the outcome record of a measure-directly pair: it is popped,
+                                      no qubit is mapped (the physical id _do_recv_epr reserved stays reserved)
+     ACreateM i known r adj lsock rsock seq bl br c1 c2 coins
+                                      ONE pair of a measure-directly request of host i towards node r
+                                      (EprGate.cmd_epr_measure: the two temporaries, H, CNOT, each rotated into its sampled
+                                       basis bl / br and measured destructively with the coins c1 / c2, removed; the peer's
+                                       outcome record -- outcome, basis, sequence number seq, directionality 1, node i, socket
+                                       rsock -- is appended to node r's deque for socket rsock: netqasm_send_epr_half(None, ..)
+                                       -> netqasm_add_epr_list, the SAME deque delivered halves are queued in; no qubit
+                                       changes hands.  The sequence number is an input: the counter new_ent_id keeps per
+                                       (socket, remote node, remote socket) is the keyed model of Qasm/Epr.v, composed with
+                                       this one in Qasm/EprCases.v)
+   n_pend = the per-node per-socket deques of delivered, unclaimed halves (DK) and measure-directly outcome records (DM), in
+   arrival order.  As in the code an entry
    carries the virtual NUMBER the receiving node gave the delivered qubit (the value remote_send_qubit returned), and a
    poll looks the qubit up again by that number (remote_get_virtual_ref = PerNodeNum.hid_of_num: first listed virtual qubit
    with the number).  The fourth component (the handle of the delivered qubit) is GHOST: never read by nstep_r; the
@@ -31,7 +44,7 @@
 From Coq Require Import List Bool Arith Lia.
 From SQ Require Import Base.ListUtil Stab.Tableau Net.Model Net.Refusal Net.Handles Net.Inv Net.InvNew Net.InvStep
   Net.Bookkeeping Net.Population Net.NonEmpty Net.PerNode Qasm.Exec Qasm.ExecProps Qasm.Teardown Qasm.TeardownFull
-  Qasm.EprGate Qasm.PerNodeNum Qasm.TeardownX Qasm.EprFailNode.
+  Qasm.Epr Qasm.EprGate Qasm.PerNodeNum Qasm.TeardownX Qasm.EprFailNode Qasm.EprMeasureNode.
 Import ListNotations.
 
 Local Arguments step : simpl never.
@@ -42,14 +55,24 @@ Definition p_node (e : pentry) : nat := fst (fst (fst e)).
 Definition p_sock (e : pentry) : nat := snd (fst (fst e)).
 Definition p_num (e : pentry) : nat := snd (fst e).
 Definition p_hd (e : pentry) : nat := snd e.
-Record nst := mkN { n_net : net; n_hosts : list host; n_pend : list pentry }.
+(* an entry of a receive deque: a delivered half (create-and-keep), or the outcome record of a measure-directly pair -- the code
+   appends both to the same deque qubit_recv_epr[socket] (netqasm_add_epr_list; virt_num = None for a record) *)
+Inductive dentry := DK (e : pentry) | DM (node sock : nat) (rec : mrec).
+Definition d_node (d : dentry) : nat := match d with DK e => p_node e | DM n _ _ => n end.
+Definition d_sock (d : dentry) : nat := match d with DK e => p_sock e | DM _ k _ => k end.
+(* the delivered halves among the entries, in order *)
+Fixpoint halves (pd : list dentry) : list pentry :=
+  match pd with [] => [] | DK e :: t => e :: halves t | DM _ _ _ :: t => halves t end.
+Record nst := mkN { n_net : net; n_hosts : list host; n_pend : list dentry }.
 Definition host_at (s : nst) (i : nat) : host := nth i (n_hosts s) empty_host.
 Definition ninit (caps : list (nat * nat)) : nst := mkN (init_net caps) (map (fun _ => empty_host) caps) [].
 
 Inductive nact :=
 | AInstr (i : nat) (q : qinstr)
 | ACreate (i app a : nat) (known : list nat) (r : nat) (adj : bool) (rsock : nat) (coins : list bool)
-| ARecv (i app a sock : nat).
+| ARecv (i app a sock : nat)
+| ACreateM (i : nat) (known : list nat) (r : nat) (adj : bool) (lsock rsock seq : nat) (bl br : mbasis) (c1 c2 : bool)
+           (coins : list bool).
 
 Definition addr_free (h : host) (app a : nat) : option (list (option nat)) :=
   match alookup app (h_units h) with
@@ -64,14 +87,31 @@ Definition map_addr (h : host) (app a qid : nat) : host :=
                           _allocate_physical_qubit raises -- neither is modelled, both are excluded by `clean` *)
   end.
 (* popleft of the deque of (node i, socket sock) *)
-Fixpoint take_pend (i sock : nat) (pd : list pentry) : option (nat * nat * list pentry) :=
+Fixpoint take_pend (i sock : nat) (pd : list dentry) : option (dentry * list dentry) :=
   match pd with
   | [] => None
-  | e :: t => if Nat.eqb (p_node e) i && Nat.eqb (p_sock e) sock then Some (p_num e, p_hd e, t)
-              else match take_pend i sock t with Some (num, hd, t') => Some (num, hd, e :: t') | None => None end
+  | e :: t => if Nat.eqb (d_node e) i && Nat.eqb (d_sock e) sock then Some (e, t)
+              else match take_pend i sock t with Some (x, t') => Some (x, e :: t') | None => None end
   end.
 (* the number remote_send_qubit returned: the result of the last native call (the send) of a successful creation *)
 Definition sent_num (tr : ntrace) : nat := match snd (last tr (ONew 0, OkNone)) with Ok v => v | _ => 0 end.
+
+(* a physical id that was reserved (_get_unused_physical_qubit) and is never released: the creator's and the receiver's id of a
+   measure-directly pair (no qubit is ever bound to it; _do_create_epr / _do_recv_epr reserve it all the same) *)
+Definition keep_used (h : host) (qid : nat) : host := with_used h (insert_sorted qid (h_used h)).
+
+(* one measure-directly pair: cmd_epr_measure; on success the two records are built (md_records), the peer's is queued.
+   Returns also the native calls and the records (creator's, peer's); nstep_r keeps state and result *)
+Definition create_m (s : nst) (i : nat) (known : list nat) (r : nat) (adj : bool) (lsock rsock seq : nat) (bl br : mbasis)
+  (c1 c2 : bool) (coins : list bool) : nst * qres * ntrace * option (mrec * mrec) :=
+  let qid := fresh_id (h_used (host_at s i)) in
+  let '(s1, res, tr, o) := cmd_epr_measure i (mkQ (n_net s) (host_at s i)) known r adj qid bl br c1 c2 coins in
+  match o with
+  | Some oo =>
+      let recs := md_records i r lsock rsock seq bl br oo in
+      (mkN (q_net s1) (upd (n_hosts s) i (keep_used (q_host s1) qid)) (n_pend s ++ [DM r rsock (snd recs)]), res, tr, Some recs)
+  | None => (mkN (q_net s1) (upd (n_hosts s) i (q_host s1)) (n_pend s), res, tr, None)
+  end.
 
 Definition nstep_r (s : nst) (x : nact) : nst * qres :=
   match x with
@@ -86,7 +126,7 @@ Definition nstep_r (s : nst) (x : nact) : nst * qres :=
         let '(s1, res, tr) := cmd_epr_keep i (mkQ (n_net s) (host_at s i)) known r adj qid coins in
         match res with
         | RDone None => (mkN (q_net s1) (upd (n_hosts s) i (map_addr (q_host s1) app a qid))
-                          (n_pend s ++ [(r, rsock, sent_num tr, pred (next_hid (q_net s1)))]), res)
+                          (n_pend s ++ [DK (r, rsock, sent_num tr, pred (next_hid (q_net s1)))]), res)
         | _ => (mkN (q_net s1) (upd (n_hosts s) i (q_host s1)) (n_pend s), res)
         end
       else (s, RErr)
@@ -94,7 +134,11 @@ Definition nstep_r (s : nst) (x : nact) : nst * qres :=
       if Nat.ltb i (length (n_hosts s)) then
         match take_pend i sock (n_pend s) with
         | None => (s, RErr)                                                        (* TimeoutError *)
-        | Some (num, _, pd') =>
+        | Some (DM _ _ _, pd') =>                                (* a measure-directly record: popped, nothing is mapped *)
+            let h := host_at s i in
+            (mkN (n_net s) (upd (n_hosts s) i (keep_used h (fresh_id (h_used h)))) pd', RDone None)
+        | Some (DK e, pd') =>
+            let num := p_num e in
             match hid_of_num (nth_node (n_net s) i) num with
             | None => (mkN (n_net s) (n_hosts s) pd', RErr)                          (* remote_get_virtual_ref found nothing *)
             | Some hd =>
@@ -108,8 +152,28 @@ Definition nstep_r (s : nst) (x : nact) : nst * qres :=
             end
         end
       else (s, RErr)
+  | ACreateM i known r adj lsock rsock seq bl br c1 c2 coins =>
+      if Nat.ltb i (length (n_hosts s)) then
+        let '(s', res, _, _) := create_m s i known r adj lsock rsock seq bl br c1 c2 coins in (s', res)
+      else (s, RErr)
   end.
 Definition nstep (s : nst) (x : nact) : nst := fst (nstep_r s x).
+
+(* the entanglement-information records of measure-directly pairs an action writes into the ReturnArray of its host (host, record):
+   the creator's record when the request succeeds (_handle_epr_response at the end of cmd_epr), the peer's when the receiver
+   polls it (cmd_epr_recv).  Records of create-and-keep pairs are not modelled *)
+Definition act_records (s : nst) (x : nact) : list (nat * mrec) :=
+  match x with
+  | ACreateM i known r adj lsock rsock seq bl br c1 c2 coins =>
+      if Nat.ltb i (length (n_hosts s)) then
+        match snd (create_m s i known r adj lsock rsock seq bl br c1 c2 coins) with Some (rc, _) => [(i, rc)] | None => [] end
+      else []
+  | ARecv i _ _ sock =>
+      if Nat.ltb i (length (n_hosts s)) then
+        match take_pend i sock (n_pend s) with Some (DM _ _ rec, _) => [(i, rec)] | _ => [] end
+      else []
+  | _ => []
+  end.
 Definition nrun (s : nst) (xs : list nact) : nst := fold_left nstep xs s.
 
 (* ---- what is excluded ------------------------------------------------------------------------------------------------------------ *)
@@ -125,27 +189,36 @@ Definition clean (s : nst) (x : nact) : Prop :=
       let qs := mkQ (n_net s) (host_at s i) in
       let qid := fresh_id (h_used (host_at s i)) in
       snd (fst (cmd_epr_keep i qs known r adj qid coins)) = RDone None -> addr_free (host_at s i) app a <> None
-  | ARecv i app a sock => take_pend i sock (n_pend s) <> None -> addr_free (host_at s i) app a <> None
+  | ARecv i app a sock =>
+      match take_pend i sock (n_pend s) with Some (DK _, _) => addr_free (host_at s i) app a <> None | _ => True end
+  | ACreateM _ _ _ _ _ _ _ _ _ _ _ _ => True               (* no qubit is bound to an address *)
   end.
 Fixpoint cleans (s : nst) (xs : list nact) : Prop :=
   match xs with [] => True | x :: t => clean s x /\ cleans (nstep s x) t end.
 
 (* ---- small facts ------------------------------------------------------------------------------------------------------------------ *)
-Definition pend_at (pd : list pentry) (i : nat) : list nat :=
-  map p_hd (filter (fun e => Nat.eqb (p_node e) i) pd).
+(* the handles of the halves delivered to node i and not yet claimed (outcome records carry no qubit) *)
+Definition pend_at (pd : list dentry) (i : nat) : list nat :=
+  map p_hd (filter (fun e => Nat.eqb (p_node e) i) (halves pd)).
 
+Lemma halves_app pd1 pd2 : halves (pd1 ++ pd2) = halves pd1 ++ halves pd2.
+Proof. induction pd1 as [|[e|n k m] t IH]; simpl; congruence. Qed.
 Lemma pend_at_app pd1 pd2 i : pend_at (pd1 ++ pd2) i = pend_at pd1 i ++ pend_at pd2 i.
-Proof. unfold pend_at. rewrite filter_app, map_app. reflexivity. Qed.
+Proof. unfold pend_at. rewrite halves_app, filter_app, map_app. reflexivity. Qed.
+Lemma pend_at_record n k m i : pend_at [DM n k m] i = [].
+Proof. reflexivity. Qed.
+Lemma pend_at_cons_record n k m pd i : pend_at (DM n k m :: pd) i = pend_at pd i.
+Proof. reflexivity. Qed.
 
-Lemma take_pend_spec i sock pd num hd pd' : take_pend i sock pd = Some (num, hd, pd') ->
-  exists l1 l2, pd = l1 ++ (i, sock, num, hd) :: l2 /\ pd' = l1 ++ l2.
+Lemma take_pend_spec i sock pd e pd' : take_pend i sock pd = Some (e, pd') ->
+  exists l1 l2, pd = l1 ++ e :: l2 /\ pd' = l1 ++ l2 /\ d_node e = i /\ d_sock e = sock.
 Proof.
-  revert pd'. induction pd as [|[[[n k] m] h] t IH]; intros pd'; simpl; [discriminate|].
-  unfold p_node, p_sock, p_num, p_hd. cbn [fst snd].
-  destruct (Nat.eqb_spec n i) as [->|N1]; destruct (Nat.eqb_spec k sock) as [->|N2]; simpl.
-  1: { intro H; inversion H; subst. eexists [], _. split; reflexivity. }
-  all: destruct (take_pend i sock t) as [[[num0 hd0] t']|]; [|discriminate]; intro H; inversion H; subst;
-       destruct (IH t' eq_refl) as (l1 & l2 & E1 & E2); eexists (_ :: l1), l2; subst; split; reflexivity.
+  revert pd'. induction pd as [|x t IH]; intros pd'; simpl; [discriminate|].
+  destruct (Nat.eqb (d_node x) i && Nat.eqb (d_sock x) sock) eqn:B.
+  - apply andb_prop in B as [B1 B2]. apply Nat.eqb_eq in B1, B2.
+    intro H; inversion H; subst x pd'. exists [], t. repeat split; auto.
+  - destruct (take_pend i sock t) as [[x0 t']|]; [|discriminate]. intro H; inversion H; subst x0 pd'.
+    destruct (IH t' eq_refl) as (l1 & l2 & E3 & E4 & E5 & E6). exists (x :: l1), l2. rewrite E3, E4. repeat split; auto.
 Qed.
 
 Lemma premove_app k l1 l2 : premove k (l1 ++ l2) = premove k l1 ++ premove k l2.
@@ -238,6 +311,58 @@ Proof.
   assert (N15 : q_net s5 = run (q_net s) (tops (t1 ++ t2 ++ t3 ++ t4 ++ t5))).
   { unfold tops in *. rewrite !map_app, !run_app. rewrite <- N1, <- N2, <- N3, <- N4. exact N5. }
   destruct r5; try (apply epr_fail_net_run; exact N15). exact N15.
+Qed.
+
+Lemma measure_epr_qubit_net_run s p b c :
+  q_net (fst (fst (measure_epr_qubit s p b c))) = run (q_net s) (tops (snd (measure_epr_qubit s p b c))).
+Proof.
+  unfold measure_epr_qubit. destruct (virt_of (q_host s) p) as [hd|]; [|reflexivity].
+  assert (B : forall X : qst * bool * ntrace, q_net (fst (fst X)) = run (q_net s) (tops (snd X)) ->
+              q_net (fst (fst (let '(s1, bad, t1) := X in
+                 if bad then (s1, @None nat, t1)
+                 else let '(s2, r, t2) := native s1 (OMeas hd false c) in
+                      match r with
+                      | Ok v => (mkQ (q_net s2) (with_qlist (q_host s2) (premove p (h_qlist (q_host s2)))), Some v, t1 ++ t2)
+                      | _ => (s2, None, t1 ++ t2)
+                      end))) =
+              run (q_net s) (tops (snd (let '(s1, bad, t1) := X in
+                 if bad then (s1, @None nat, t1)
+                 else let '(s2, r, t2) := native s1 (OMeas hd false c) in
+                      match r with
+                      | Ok v => (mkQ (q_net s2) (with_qlist (q_host s2) (premove p (h_qlist (q_host s2)))), Some v, t1 ++ t2)
+                      | _ => (s2, None, t1 ++ t2)
+                      end)))).
+  { intros [[s1 bad] t1] N1. cbn [fst snd] in N1. destruct bad; [exact N1|].
+    pose proof (native_net_run s1 (OMeas hd false c)) as N2. destruct (native s1 (OMeas hd false c)) as [[s2 r] t2]. cbn [fst snd] in N2.
+    assert (N12 : q_net s2 = run (q_net s) (tops (t1 ++ t2))) by (unfold tops in *; rewrite map_app, run_app, <- N1; exact N2).
+    destruct r; exact N12. }
+  apply B. destruct (basis_g1 b) as [g|]; [|reflexivity].
+  pose proof (native_net_run s (OGate1 hd g)) as N. destruct (native s (OGate1 hd g)) as [[s' r] t]. exact N.
+Qed.
+
+Lemma cmd_epr_measure_net_run i s known r adj qid bl br c1 c2 coins :
+  q_net (fst (fst (fst (cmd_epr_measure i s known r adj qid bl br c1 c2 coins)))) =
+  run (q_net s) (tops (snd (fst (cmd_epr_measure i s known r adj qid bl br c1 c2 coins)))).
+Proof.
+  unfold cmd_epr_measure, epr_fail_m. destruct (negb (epr_gate known i r adj)); [reflexivity|].
+  pose proof (cmd_new_net_run i s (PP qid)) as N1.
+  destruct (cmd_new i s (PP qid)) as [[s1 ok1] t1]. simpl in N1. destruct (negb ok1); [apply epr_fail_net_run; exact N1|].
+  pose proof (cmd_new_net_run i s1 (PM qid)) as N2.
+  destruct (cmd_new i s1 (PM qid)) as [[s2 ok2] t2]. simpl in N2.
+  assert (N12 : q_net s2 = run (q_net s) (tops (t1 ++ t2))) by (unfold tops in *; rewrite map_app, run_app, <- N1; exact N2).
+  destruct (negb ok2); [apply epr_fail_net_run; exact N12|].
+  destruct (virt_of (q_host s2) (PP qid)) as [h1|]; [|apply epr_fail_net_run; exact N12].
+  destruct (virt_of (q_host s2) (PM qid)) as [h2|]; [|apply epr_fail_net_run; exact N12].
+  pose proof (native_net_run s2 (OGate1 h1 NH)) as N3. destruct (native s2 (OGate1 h1 NH)) as [[s3 r3] t3]. simpl in N3.
+  pose proof (native_net_run s3 (OGate2 h1 h2 NCnot)) as N4. destruct (native s3 (OGate2 h1 h2 NCnot)) as [[s4 r4] t4]. simpl in N4.
+  pose proof (measure_epr_qubit_net_run s4 (PP qid) bl c1) as N5. destruct (measure_epr_qubit s4 (PP qid) bl c1) as [[s5 o1] t5]. simpl in N5.
+  assert (N15 : q_net s5 = run (q_net s) (tops (t1 ++ t2 ++ t3 ++ t4 ++ t5))).
+  { unfold tops in *. rewrite !map_app, !run_app. rewrite <- N1, <- N2, <- N3, <- N4. exact N5. }
+  destruct o1 as [v1|]; [|apply epr_fail_net_run; exact N15].
+  pose proof (measure_epr_qubit_net_run s5 (PM qid) br c2) as N6. destruct (measure_epr_qubit s5 (PM qid) br c2) as [[s6 o2] t6]. simpl in N6.
+  assert (N16 : q_net s6 = run (q_net s) (tops (t1 ++ t2 ++ t3 ++ t4 ++ t5 ++ t6))).
+  { unfold tops in *. rewrite !map_app, !run_app. rewrite <- N1, <- N2, <- N3, <- N4, <- N5. exact N6. }
+  destruct o2 as [v2|]; [exact N16|apply epr_fail_net_run; exact N16].
 Qed.
 
 (* ---- a pair creation that fails: the temporaries that exist are removed again ----------------------------------------------------- *)
@@ -586,6 +711,95 @@ Proof.
   apply VJ4. exact Nj.
 Qed.
 
+(* ---- one measure-directly pair: whatever happens, nothing is left; when it succeeds the outcomes are the table's ------------------ *)
+Lemma vn_of_bumped n n' i k : nodes n' = upd (nodes n) i (bump (nth_node n i) k) ->
+  forall j, vn (nth_node n' j) = vn (nth_node n j).
+Proof. intros E j. destruct (bumped_same_fields n n' i k E j) as (A & _). unfold vn. rewrite A. reflexivity. Qed.
+
+Lemma epr_measure_effect i s known r adj qid bl br c1 c2 coins s' res tr o :
+  ginv (q_net s) ->
+  (forall k hd, plookup k (h_qlist (q_host s)) = Some hd -> exists p, k = PP p /\ p <> qid) ->
+  cmd_epr_measure i s known r adj qid bl br c1 c2 coins = (s', res, tr, o) ->
+  q_host s' = q_host s /\ ginv (q_net s') /\ next_hid (q_net s) <= next_hid (q_net s') /\
+  length (nodes (q_net s')) = length (nodes (q_net s)) /\
+  (forall j, vn (nth_node (q_net s') j) = vn (nth_node (q_net s) j)) /\
+  (exists k, k <= 2 /\ nodes (q_net s') = upd (nodes (q_net s)) i (bump (nth_node (q_net s) i) k)) /\
+  ((res = RDone None /\ o = Some (b2n (fst (md_outcomes bl br c1 c2)), b2n (snd (md_outcomes bl br c1 c2))) /\
+    epr_gate known i r adj = true /\
+    tops tr = md_ops i (next_hid (q_net s)) (S (next_hid (q_net s))) bl br c1 c2 /\
+    next_hid (q_net s') = S (S (next_hid (q_net s))))
+   \/ (res = RErr /\ o = None)).
+Proof.
+  intros G0 KK CM. set (ql := h_qlist (q_host s)).
+  assert (NP : plookup (PP qid) ql = None).
+  { destruct (plookup (PP qid) ql) as [y|] eqn:Y; auto. destruct (KK _ _ Y) as (p & Ep & Np). inversion Ep. congruence. }
+  assert (NM : plookup (PM qid) ql = None).
+  { destruct (plookup (PM qid) ql) as [y|] eqn:Y; auto. destruct (KK _ _ Y) as (p & Ep & _). discriminate. }
+  (* refused by the checks or by a cmd_new: the create-and-keep code path *)
+  assert (REF : epr_gate known i r adj = false \/ snd (fst (cmd_new i s (PP qid))) = false \/
+                snd (fst (cmd_new i (fst (fst (cmd_new i s (PP qid)))) (PM qid))) = false ->
+                q_host s' = q_host s /\ ginv (q_net s') /\ next_hid (q_net s) <= next_hid (q_net s') /\
+                length (nodes (q_net s')) = length (nodes (q_net s)) /\
+                (forall j, vn (nth_node (q_net s') j) = vn (nth_node (q_net s) j)) /\
+                (exists k, k <= 2 /\ nodes (q_net s') = upd (nodes (q_net s)) i (bump (nth_node (q_net s) i) k)) /\
+                res = RErr /\ o = None).
+  { intro D. rewrite (measure_refused_as_keep i s known r adj qid bl br c1 c2 coins D) in CM.
+    pose proof (keep_refused_is_err i s known r adj qid coins D) as RE.
+    destruct (cmd_epr_keep i s known r adj qid coins) as [[sk resk] trk] eqn:CK. cbn [fst snd] in RE. subst resk.
+    inversion CM; subst sk res trk o.
+    destruct (epr_keep_failure_effect i s known r adj qid coins s' RErr tr G0 KK CK) as (_ & QH & G1 & Mo & LL & VV & NB).
+    { discriminate. }
+    repeat (split; auto). }
+  destruct (epr_gate known i r adj) eqn:Gt; [|destruct (REF (or_introl eq_refl)) as (A & B & C & D & E & F & H1 & H2); repeat (split; auto)].
+  destruct (cmd_new i s (PP qid)) as [[s1 [|]] t1] eqn:C1;
+    [|destruct (REF (or_intror (or_introl eq_refl))) as (A & B & C & D & E & F & H1 & H2); repeat (split; auto)].
+  destruct (cmd_new i s1 (PM qid)) as [[s2 [|]] t2] eqn:C2;
+    [|cbn [fst snd] in REF; rewrite C2 in REF; cbn [fst snd] in REF; destruct (REF (or_intror (or_intror eq_refl))) as (A & B & C & D & E & F & H1 & H2); repeat (split; auto)].
+  clear REF.
+  unfold cmd_epr_measure in CM. rewrite Gt, C1 in CM. cbn [negb] in CM. rewrite C2 in CM. cbn [negb] in CM.
+  apply cmd_new_ok in C1 as (v1 & S1 & Q1 & TT1). apply cmd_new_ok in C2 as (v2 & S2 & Q2 & TT2).
+  set (a1 := next_hid (q_net s)) in *.
+  destruct (md_steps i (q_net s) (q_net s1) (q_net s2) v1 v2 bl br c1 c2 G0 S1 S2)
+    as (n3 & n4 & n5 & n6 & n7 & S3 & S4 & S5 & S6 & S7 & S8 & X1 & X2 & GF & _).
+  fold a1 in S3, S4, S5, S6, S7, S8, X1, X2, GF. rewrite X1 in Q2.
+  set (a2 := S a1) in *.
+  set (o1 := b2n (fst (md_outcomes bl br c1 c2))) in *. set (o2 := b2n (snd (md_outcomes bl br c1 c2))) in *.
+  assert (QL2 : h_qlist (q_host s2) = pset (PM qid) a2 (pset (PP qid) a1 ql)).
+  { rewrite Q2. cbn [h_qlist with_qlist]. rewrite Q1. reflexivity. }
+  assert (V1 : virt_of (q_host s2) (PP qid) = Some a1).
+  { unfold virt_of. rewrite QL2. rewrite plookup_pset_neq by discriminate. apply plookup_pset_eq. }
+  assert (V2 : virt_of (q_host s2) (PM qid) = Some a2).
+  { unfold virt_of. rewrite QL2. apply plookup_pset_eq. }
+  rewrite V1, V2 in CM. unfold native in CM. rewrite S3 in CM. cbn [q_net q_host] in CM. rewrite S4 in CM. cbn [q_net q_host] in CM.
+  (* the first temporary: rotated, measured, removed from qubitList *)
+  assert (M1 : measure_epr_qubit (mkQ n4 (q_host s2)) (PP qid) bl c1 =
+               (mkQ n6 (with_qlist (q_host s2) (pset (PM qid) a2 ql)), Some o1,
+                map (fun x => (x, OkNone)) (basis_ops a1 bl) ++ [(OMeas a1 false c1, Ok o1)])).
+  { unfold measure_epr_qubit. cbn [q_host]. rewrite V1. unfold native, basis_ops. cbn [q_net q_host].
+    assert (QF : premove (PP qid) (h_qlist (q_host s2)) = pset (PM qid) a2 ql).
+    { rewrite QL2, premove_pset_neq by discriminate. rewrite premove_pset, (premove_absent _ _ NP). reflexivity. }
+    destruct (basis_g1 bl) as [g|].
+    - cbn [q_net q_host]. rewrite S5. cbn [is_err q_net q_host]. rewrite S6. cbn [q_net q_host map app]. rewrite QF. reflexivity.
+    - subst n5. cbn [q_net q_host]. rewrite S6. cbn [q_net q_host map app]. rewrite QF. reflexivity. }
+  rewrite M1 in CM.
+  set (h5 := with_qlist (q_host s2) (pset (PM qid) a2 ql)) in *.
+  assert (M2 : measure_epr_qubit (mkQ n6 h5) (PM qid) br c2 =
+               (mkQ (mkNet (upd (nodes (q_net s)) i (bump (nth_node (q_net s) i) 2)) (S (S a1))) (q_host s), Some o2,
+                map (fun x => (x, OkNone)) (basis_ops a2 br) ++ [(OMeas a2 false c2, Ok o2)])).
+  { unfold measure_epr_qubit. cbn [q_host]. unfold virt_of, h5. cbn [h_qlist with_qlist]. rewrite plookup_pset_eq.
+    unfold native, basis_ops. cbn [q_net q_host].
+    assert (QF : with_qlist (with_qlist (q_host s2) (pset (PM qid) a2 ql)) (premove (PM qid) (pset (PM qid) a2 ql)) = q_host s).
+    { rewrite premove_pset, (premove_absent _ _ NM), with_qlist_twice, Q2, with_qlist_twice, Q1, with_qlist_twice. apply with_qlist_same. }
+    destruct (basis_g1 br) as [g|].
+    - cbn [q_net q_host]. rewrite S7. cbn [is_err q_net q_host]. rewrite S8. cbn [q_net q_host map app h_qlist with_qlist]. rewrite QF. reflexivity.
+    - subst n7. cbn [q_net q_host]. rewrite S8. cbn [q_net q_host map app h_qlist with_qlist]. rewrite QF. reflexivity. }
+  rewrite M2 in CM. inversion CM; subst s' res tr o. clear CM. cbn [q_net q_host nodes next_hid].
+  split; [reflexivity|]. split; [exact GF|]. split; [lia|]. split; [rewrite upd_length; reflexivity|].
+  split; [apply (vn_of_bumped (q_net s) _ i 2); reflexivity|]. split; [exists 2; split; [lia|reflexivity]|].
+  left. split; [reflexivity|]. split; [reflexivity|]. split; [reflexivity|]. split; [|reflexivity].
+  subst t1 t2. unfold tops, md_ops. cbn [app map fst]. rewrite !map_app, !map_map. cbn [fst map]. rewrite !map_id, <- !app_assoc. reflexivity.
+Qed.
+
 (* ---- the global invariant ---------------------------------------------------------------------------------------------------------- *)
 Record ninv (s : nst) : Prop := mkNinv {
   g_len : length (n_hosts s) = length (nodes (n_net s));
@@ -593,11 +807,29 @@ Record ninv (s : nst) : Prop := mkNinv {
   g_host : forall i, i < length (n_hosts s) -> tinvx i (pend_at (n_pend s) i) (mkQ (n_net s) (host_at s i));
   g_leak : forall i, i < length (n_hosts s) -> leakfree (mkQ (n_net s) (host_at s i));
   (* looking an unclaimed half up by the number stored with it finds the delivered qubit itself *)
-  g_num : forall e, In e (n_pend s) -> hid_of_num (nth_node (n_net s) (p_node e)) (p_num e) = Some (p_hd e)
+  g_num : forall e, In (DK e) (n_pend s) -> hid_of_num (nth_node (n_net s) (p_node e)) (p_num e) = Some (p_hd e)
 }.
 
-Lemma in_pend_at pd e : In e pd -> In (p_hd e) (pend_at pd (p_node e)).
-Proof. intro H. unfold pend_at. apply in_map. apply filter_In. split; auto. apply Nat.eqb_refl. Qed.
+Lemma in_halves pd e : In (DK e) pd <-> In e (halves pd).
+Proof.
+  induction pd as [|[e'|n k m] t IH]; simpl; [tauto| |].
+  - rewrite <- IH. split; intros [H|H]; auto; left; congruence.
+  - rewrite <- IH. split; [intros [H|H]; [discriminate|auto]|auto].
+Qed.
+Lemma in_pend_at pd e : In (DK e) pd -> In (p_hd e) (pend_at pd (p_node e)).
+Proof. intro H. apply in_halves in H. unfold pend_at. apply in_map. apply filter_In. split; auto. apply Nat.eqb_refl. Qed.
+
+(* reserving one more physical id changes nothing the invariants speak about *)
+Lemma tinvx_keep_used i ex n h q : tinvx i ex (mkQ n h) -> tinvx i ex (mkQ n (keep_used h q)).
+Proof.
+  intros [H I K N O E D M]. constructor; auto.
+  - destruct H as [Hn U J L Q]. constructor; auto. cbn [q_host keep_used with_used h_units h_used] in *.
+    intros app um a p A B. apply insert_sorted_in. right. eapply U; eauto.
+  - cbn [q_host keep_used with_used h_qlist h_used] in *. intros k hd Hk. destruct (K k hd Hk) as (p & Ep & Hp).
+    exists p. split; auto. apply insert_sorted_in. auto.
+Qed.
+Lemma leakfree_keep_used n h q : leakfree (mkQ n h) -> leakfree (mkQ n (keep_used h q)).
+Proof. intro H. exact H. Qed.
 
 Lemma host_at_init caps i : host_at (ninit caps) i = empty_host.
 Proof. unfold host_at, ninit. cbn [n_hosts]. revert i. induction caps as [|c t IH]; intros [|i]; simpl; auto. Qed.
@@ -623,7 +855,8 @@ Proof. intro H. rewrite exec_net_run. apply run_hid_inv. exact H. Qed.
 (* every clean action keeps the global invariant *)
 Theorem nstep_ninv s x : ninv s -> clean s x -> ninv (nstep s x).
 Proof.
-  intros [GL GG GH GK GN] C. unfold nstep. destruct x as [i q|i app a known r adj rsock coins|i app a sock]; cbn [nstep_r].
+  intros [GL GG GH GK GN] C. unfold nstep.
+  destruct x as [i q|i app a known r adj rsock coins|i app a sock|i known r adj lsock rsock seq bl br c1 c2 coins]; cbn [nstep_r].
   - (* an instruction of host i *)
     destruct (Nat.ltb_spec i (length (n_hosts s))) as [Hi|Hi]; [|constructor; auto].
     pose proof (xexec_v i _ _ q (GH i Hi)) as [T1 V1].
@@ -670,10 +903,10 @@ Proof.
       rewrite MA.
       assert (Lr' : r < length (n_hosts s)) by lia.
       set (xh := pred (next_hid (q_net s1))) in *.
-      assert (PEr : pend_at [(r, rsock, sent_num tr, xh)] r = [xh]).
-      { unfold pend_at, p_node, p_hd. cbn [filter map fst snd]. rewrite Nat.eqb_refl. reflexivity. }
-      assert (PEo : forall j, j <> r -> pend_at [(r, rsock, sent_num tr, xh)] j = []).
-      { intros j Nj. unfold pend_at, p_node, p_hd. cbn [filter map fst snd]. destruct (Nat.eqb_spec r j); [congruence|reflexivity]. }
+      assert (PEr : pend_at [DK (r, rsock, sent_num tr, xh)] r = [xh]).
+      { unfold pend_at, p_node, p_hd. cbn [halves filter map fst snd]. rewrite Nat.eqb_refl. reflexivity. }
+      assert (PEo : forall j, j <> r -> pend_at [DK (r, rsock, sent_num tr, xh)] j = []).
+      { intros j Nj. unfold pend_at, p_node, p_hd. cbn [halves filter map fst snd]. destruct (Nat.eqb_spec r j); [congruence|reflexivity]. }
       constructor; cbn [n_net n_hosts n_pend fst].
       * rewrite upd_length, LL. exact GL.
       * exact G1.
@@ -701,7 +934,7 @@ Proof.
            destruct (Nat.eq_dec (p_node e) i) as [E|Ne]; [rewrite E in *; rewrite VI; apply lookup_app_l; exact L|].
            destruct (Nat.eq_dec (p_node e) r) as [E|Ner]; [rewrite E in *; rewrite VR; apply lookup_app_l; exact L|].
            rewrite VJ by auto. exact L.
-        -- subst e. unfold p_node, p_num, p_hd, hid_of_num. cbn [fst snd]. rewrite VR. apply lookup_app_fresh. exact VF.
+        -- inversion He; subst e. unfold p_node, p_num, p_hd, hid_of_num. cbn [fst snd]. rewrite VR. apply lookup_app_fresh. exact VF.
     + (* not created -- refused before any temporary existed, or failed afterwards and cleaned up: every host and every node's
          list of held qubits is what it was *)
       destruct (epr_keep_failure_effect i qs known r adj qid coins s1 res tr GG) as (RE & QH & G1 & Mo & LL & VV & NB); auto.
@@ -720,23 +953,40 @@ Proof.
       * intros e He. unfold hid_of_num. rewrite VV. apply GN. exact He.
   - (* host i polls for a delivered half *)
     destruct (Nat.ltb_spec i (length (n_hosts s))) as [Hi|Hi]; [|constructor; auto].
-    destruct (take_pend i sock (n_pend s)) as [[[num hd] pd']|] eqn:TP; [|constructor; auto].
+    destruct (take_pend i sock (n_pend s)) as [[e0 pd']|] eqn:TP; [|constructor; auto].
     cbn [clean] in C. rewrite TP in C.
-    destruct (take_pend_spec _ _ _ _ _ _ TP) as (l1 & l2 & EP & EP').
+    destruct (take_pend_spec _ _ _ _ _ TP) as (l1 & l2 & EP & EP' & EN & _).
     pose proof (GH i Hi) as Ti.
-    assert (Hent : In (i, sock, num, hd) (n_pend s)) by (rewrite EP; apply in_or_app; right; simpl; auto).
-    pose proof (GN _ Hent) as LK. unfold p_node, p_num, p_hd in LK. cbn [fst snd] in LK. rewrite LK.
+    destruct e0 as [e|mn mk mrc].
+    2: { (* the head of the deque is a measure-directly record: it is popped; one more physical id is reserved *)
+         cbn [fst].
+         assert (PA : forall j, pend_at pd' j = pend_at (n_pend s) j).
+         { intro j. rewrite EP, EP', !pend_at_app. reflexivity. }
+         constructor; cbn [n_net n_hosts n_pend].
+         - rewrite upd_length. exact GL.
+         - exact GG.
+         - intros j Hj. rewrite upd_length in Hj. rewrite PA. destruct (Nat.eq_dec j i) as [->|Nj].
+           + rewrite host_at_upd_eq by exact Hi. apply tinvx_keep_used. exact Ti.
+           + rewrite host_at_upd_neq by exact Nj. apply (GH j Hj).
+         - intros j Hj. rewrite upd_length in Hj. destruct (Nat.eq_dec j i) as [->|Nj].
+           + rewrite host_at_upd_eq by exact Hi. apply leakfree_keep_used. apply (GK i Hi).
+           + rewrite host_at_upd_neq by exact Nj. apply (GK j Hj).
+         - intros e He. apply GN. rewrite EP. rewrite EP' in He. apply in_app_iff in He as [He|He]; apply in_or_app; simpl; auto. }
+    cbn [d_node] in EN. cbv zeta.
+    set (num := p_num e). set (hd := p_hd e).
+    assert (Hent : In (DK e) (n_pend s)) by (rewrite EP; apply in_or_app; right; simpl; auto).
+    pose proof (GN _ Hent) as LK. rewrite EN in LK. fold num hd in LK. rewrite LK.
     assert (PI : pend_at (n_pend s) i = pend_at l1 i ++ hd :: pend_at l2 i).
-    { rewrite EP, pend_at_app. f_equal. unfold pend_at, p_node, p_hd. cbn [filter map fst snd]. rewrite Nat.eqb_refl. reflexivity. }
+    { rewrite EP, pend_at_app. f_equal. unfold pend_at. cbn [halves filter map]. rewrite EN, Nat.eqb_refl. reflexivity. }
     assert (PI' : pend_at pd' i = pend_at l1 i ++ pend_at l2 i) by (rewrite EP'; apply pend_at_app).
     assert (PJ : forall j, j <> i -> pend_at pd' j = pend_at (n_pend s) j).
-    { intros j Nj. rewrite EP, EP', !pend_at_app. f_equal. unfold pend_at, p_node, p_hd. cbn [filter map fst snd].
+    { intros j Nj. rewrite EP, EP', !pend_at_app. f_equal. unfold pend_at. cbn [halves filter map]. rewrite EN.
       destruct (Nat.eqb_spec i j); [congruence|reflexivity]. }
     assert (NK : plookup (PP (fresh_id (h_used (host_at s i)))) (h_qlist (host_at s i)) = None).
     { destruct (plookup _ _) as [y|] eqn:Y; auto. destruct (x_keys _ _ _ Ti _ _ Y) as (p & E1 & E2).
       inversion E1; subst. exfalso. eapply fresh_id_not_in; eauto. }
     rewrite NK. cbn [fst].
-    destruct (addr_free (host_at s i) app a) as [um|] eqn:AF; [|exfalso; apply C; [discriminate|reflexivity]].
+    destruct (addr_free (host_at s i) app a) as [um|] eqn:AF; [|exfalso; apply C; reflexivity].
     assert (EUA : alookup app (h_units (host_at s i)) = Some um /\ nth_error um a = Some None).
     { unfold addr_free in AF. destruct (alookup app (h_units (host_at s i))) as [um0|]; [|discriminate].
       destruct (nth_error um0 a) as [[p|]|] eqn:EA; inversion AF; subst; auto. }
@@ -765,7 +1015,39 @@ Proof.
     + intros j Hj. rewrite upd_length in Hj. destruct (Nat.eq_dec j i) as [->|Nj].
       * rewrite host_at_upd_eq by exact Hi. apply (leakfree_bind (n_net s)); auto.
       * rewrite host_at_upd_neq by exact Nj. apply (GK j Hj).
-    + intros e He. apply GN. rewrite EP. rewrite EP' in He. apply in_app_iff in He as [He|He]; apply in_or_app; simpl; auto.
+    + intros e' He. apply GN. rewrite EP. rewrite EP' in He. apply in_app_iff in He as [He|He]; apply in_or_app; simpl; auto.
+  - (* one measure-directly pair by host i towards node r: whether it succeeds or not, every node lists the same qubits *)
+    destruct (Nat.ltb_spec i (length (n_hosts s))) as [Hi|Hi]; [|constructor; auto].
+    unfold create_m. set (qs := mkQ (n_net s) (host_at s i)). set (qid := fresh_id (h_used (host_at s i))).
+    pose proof (GH i Hi) as Ti. fold qs in Ti.
+    destruct (cmd_epr_measure i qs known r adj qid bl br c1 c2 coins) as [[[s1 res] tr] o] eqn:CM.
+    destruct (epr_measure_effect i qs known r adj qid bl br c1 c2 coins s1 res tr o GG) as (QH & G1 & Mo & LL & VV & _ & _); auto.
+    { intros k hd Hk. destruct (x_keys _ _ _ Ti k hd Hk) as (p & E & Hu). exists p. split; auto.
+      intro; subst p. apply (fresh_id_not_in (h_used (host_at s i))). exact Hu. }
+    subst qs. cbn [q_net q_host] in *.
+    assert (HH : forall j, hn (nth_node (q_net s1) j) = hn (nth_node (n_net s) j)) by (intro j; rewrite !hn_vn, VV; reflexivity).
+    assert (CORE : forall h' pd', (h' = host_at s i \/ h' = keep_used (host_at s i) qid) ->
+                   (forall j, pend_at pd' j = pend_at (n_pend s) j) -> (forall e, In (DK e) pd' -> In (DK e) (n_pend s)) ->
+                   ninv (mkN (q_net s1) (upd (n_hosts s) i h') pd')).
+    { intros h' pd' Hh PA PI. constructor; cbn [n_net n_hosts n_pend].
+      - rewrite upd_length, LL. exact GL.
+      - exact G1.
+      - intros j Hj. rewrite upd_length in Hj. rewrite PA. destruct (Nat.eq_dec j i) as [->|Nj].
+        + rewrite host_at_upd_eq by exact Hi.
+          assert (T1 : tinvx i (pend_at (n_pend s) i) (mkQ (q_net s1) (host_at s i))).
+          { apply (tinvx_frame i _ (q_net s1) (mkQ (n_net s) (host_at s i))); auto. }
+          destruct Hh as [->| ->]; [exact T1|apply tinvx_keep_used; exact T1].
+        + rewrite host_at_upd_neq by exact Nj.
+          apply (tinvx_frame j _ (q_net s1) (mkQ (n_net s) (host_at s j))); auto.
+      - intros j Hj. rewrite upd_length in Hj. destruct (Nat.eq_dec j i) as [->|Nj].
+        + rewrite host_at_upd_eq by exact Hi. destruct Hh as [->| ->]; [|apply leakfree_keep_used]; apply (leakfree_net (n_net s)); auto.
+        + rewrite host_at_upd_neq by exact Nj. apply (leakfree_net (n_net s)). auto.
+      - intros e He. unfold hid_of_num. rewrite VV. apply GN. apply PI. exact He. }
+    destruct o as [oo|]; cbn [fst]; rewrite QH.
+    + apply CORE; [right; reflexivity| |].
+      * intro j. rewrite pend_at_app, pend_at_record, app_nil_r. reflexivity.
+      * intros e He. apply in_app_iff in He as [He|[He|[]]]; [exact He|discriminate].
+    + apply CORE; [left; reflexivity|reflexivity|auto].
 Qed.
 
 Theorem nrun_ninv xs : forall s, ninv s -> cleans s xs -> ninv (nrun s xs).
@@ -776,7 +1058,12 @@ Qed.
 (* ---- the shared network is a reachable Model-V state ---------------------------------------------------------------------------- *)
 Lemma nstep_net_run s x : exists ops, n_net (nstep s x) = run (n_net s) ops.
 Proof.
-  unfold nstep. destruct x as [i q|i app a known r adj rsock coins|i app a sock]; cbn [nstep_r].
+  unfold nstep.
+  destruct x as [i q|i app a known r adj rsock coins|i app a sock|i known r adj lsock rsock seq bl br c1 c2 coins]; cbn [nstep_r].
+  4: { destruct (Nat.ltb i (length (n_hosts s))); [|exists []; reflexivity]. unfold create_m.
+       pose proof (cmd_epr_measure_net_run i (mkQ (n_net s) (host_at s i)) known r adj (fresh_id (h_used (host_at s i))) bl br c1 c2 coins) as NR.
+       destruct (cmd_epr_measure _ _ _ _ _ _ _ _ _ _ _) as [[[s1 res] tr] o]. cbn [fst snd q_net] in *.
+       destruct o; cbn [fst n_net]; eauto. }
   - destruct (Nat.ltb i (length (n_hosts s))); [|exists []; reflexivity].
     pose proof (exec_net_run i (mkQ (n_net s) (host_at s i)) q) as NR.
     destruct (exec i (mkQ (n_net s) (host_at s i)) q) as [[s' res] tr]. cbn [fst snd q_net] in *. eauto.
@@ -785,7 +1072,7 @@ Proof.
     destruct (cmd_epr_keep _ _ _ _ _ _ _) as [[s1 res] tr]. cbn [fst snd q_net] in *.
     destruct res as [[v|]| |]; cbn [fst n_net]; eauto.
   - destruct (Nat.ltb i (length (n_hosts s))); [|exists []; reflexivity].
-    destruct (take_pend i sock (n_pend s)) as [[[num hd] pd']|]; [|exists []; reflexivity].
+    destruct (take_pend i sock (n_pend s)) as [[[e|mn mk mrc] pd']|]; [|exists []; reflexivity|exists []; reflexivity]. cbv zeta.
     destruct (hid_of_num _ _); [|exists []; reflexivity]. destruct (plookup _ _); exists []; reflexivity.
 Qed.
 
@@ -850,9 +1137,58 @@ Proof.
   destruct r5; try (apply epr_fail_core; exact C15). exact C15.
 Qed.
 
+Lemma measure_epr_qubit_core s p b c : Forall core_op (tops (snd (measure_epr_qubit s p b c))).
+Proof.
+  unfold measure_epr_qubit. destruct (virt_of (q_host s) p) as [hd|]; [|constructor].
+  assert (B : forall X : qst * bool * ntrace, Forall core_op (tops (snd X)) ->
+              Forall core_op (tops (snd (let '(s1, bad, t1) := X in
+                 if bad then (s1, @None nat, t1)
+                 else let '(s2, r, t2) := native s1 (OMeas hd false c) in
+                      match r with
+                      | Ok v => (mkQ (q_net s2) (with_qlist (q_host s2) (premove p (h_qlist (q_host s2)))), Some v, t1 ++ t2)
+                      | _ => (s2, None, t1 ++ t2)
+                      end)))).
+  { intros [[s1 bad] t1] N1. cbn [fst snd] in N1. destruct bad; [exact N1|].
+    pose proof (native_core s1 (OMeas hd false c) I) as N2. destruct (native s1 (OMeas hd false c)) as [[s2 r] t2]. cbn [fst snd] in N2.
+    assert (N12 : Forall core_op (tops (t1 ++ t2))) by (unfold tops in *; rewrite map_app; apply Forall_app; auto).
+    destruct r; exact N12. }
+  apply B. destruct (basis_g1 b) as [g|]; [|constructor].
+  pose proof (native_core s (OGate1 hd g) I) as N. destruct (native s (OGate1 hd g)) as [[s' r] t]. exact N.
+Qed.
+
+Lemma cmd_epr_measure_core i s known r adj qid bl br c1 c2 coins :
+  Forall core_op (tops (snd (fst (cmd_epr_measure i s known r adj qid bl br c1 c2 coins)))).
+Proof.
+  unfold cmd_epr_measure, epr_fail_m. destruct (negb (epr_gate known i r adj)); [constructor|].
+  pose proof (cmd_new_core i s (PP qid)) as C1.
+  destruct (cmd_new i s (PP qid)) as [[s1 ok1] t1]. simpl in C1. destruct (negb ok1); [apply epr_fail_core; exact C1|].
+  pose proof (cmd_new_core i s1 (PM qid)) as C2.
+  destruct (cmd_new i s1 (PM qid)) as [[s2 ok2] t2]. simpl in C2.
+  assert (C12 : Forall core_op (tops (t1 ++ t2))) by (unfold tops in *; rewrite map_app; apply Forall_app; auto).
+  destruct (negb ok2); [apply epr_fail_core; exact C12|].
+  destruct (virt_of (q_host s2) (PP qid)) as [h1|]; [|apply epr_fail_core; exact C12].
+  destruct (virt_of (q_host s2) (PM qid)) as [h2|]; [|apply epr_fail_core; exact C12].
+  pose proof (native_core s2 (OGate1 h1 NH) I) as C3. destruct (native s2 (OGate1 h1 NH)) as [[s3 r3] t3]. simpl in C3.
+  pose proof (native_core s3 (OGate2 h1 h2 NCnot) I) as C4. destruct (native s3 (OGate2 h1 h2 NCnot)) as [[s4 r4] t4]. simpl in C4.
+  pose proof (measure_epr_qubit_core s4 (PP qid) bl c1) as C5. destruct (measure_epr_qubit s4 (PP qid) bl c1) as [[s5 o1] t5]. simpl in C5.
+  assert (C15 : Forall core_op (tops (t1 ++ t2 ++ t3 ++ t4 ++ t5))).
+  { unfold tops in *. rewrite !map_app. repeat (apply Forall_app; split); auto. }
+  destruct o1 as [v1|]; [|apply epr_fail_core; exact C15].
+  pose proof (measure_epr_qubit_core s5 (PM qid) br c2) as C6. destruct (measure_epr_qubit s5 (PM qid) br c2) as [[s6 o2] t6]. simpl in C6.
+  assert (C16 : Forall core_op (tops (t1 ++ t2 ++ t3 ++ t4 ++ t5 ++ t6))).
+  { unfold tops in *. rewrite !map_app. repeat (apply Forall_app; split); auto. }
+  destruct o2 as [v2|]; [exact C16|apply epr_fail_core; exact C16].
+Qed.
+
 Lemma nstep_net_run_core s x : exists ops, Forall core_op ops /\ n_net (nstep s x) = run (n_net s) ops.
 Proof.
-  unfold nstep. destruct x as [i q|i app a known r adj rsock coins|i app a sock]; cbn [nstep_r].
+  unfold nstep.
+  destruct x as [i q|i app a known r adj rsock coins|i app a sock|i known r adj lsock rsock seq bl br c1 c2 coins]; cbn [nstep_r].
+  4: { destruct (Nat.ltb i (length (n_hosts s))); [|exists []; split; [constructor|reflexivity]]. unfold create_m.
+       pose proof (cmd_epr_measure_net_run i (mkQ (n_net s) (host_at s i)) known r adj (fresh_id (h_used (host_at s i))) bl br c1 c2 coins) as NR.
+       pose proof (cmd_epr_measure_core i (mkQ (n_net s) (host_at s i)) known r adj (fresh_id (h_used (host_at s i))) bl br c1 c2 coins) as NC.
+       destruct (cmd_epr_measure _ _ _ _ _ _ _ _ _ _ _) as [[[s1 res] tr] o]. cbn [fst snd q_net] in *.
+       destruct o; cbn [fst n_net]; eauto. }
   - destruct (Nat.ltb i (length (n_hosts s))); [|exists []; split; [constructor|reflexivity]].
     pose proof (exec_net_run i (mkQ (n_net s) (host_at s i)) q) as NR.
     pose proof (exec_core i (mkQ (n_net s) (host_at s i)) q) as NC.
@@ -863,7 +1199,8 @@ Proof.
     destruct (cmd_epr_keep _ _ _ _ _ _ _) as [[s1 res] tr]. cbn [fst snd q_net] in *.
     destruct res as [[v|]| |]; cbn [fst n_net]; eauto.
   - destruct (Nat.ltb i (length (n_hosts s))); [|exists []; split; [constructor|reflexivity]].
-    destruct (take_pend i sock (n_pend s)) as [[[num hd] pd']|]; [|exists []; split; [constructor|reflexivity]].
+    destruct (take_pend i sock (n_pend s)) as [[[e|mn mk mrc] pd']|];
+      [|exists []; split; [constructor|reflexivity]|exists []; split; [constructor|reflexivity]]. cbv zeta.
     destruct (hid_of_num _ _); [|exists []; split; [constructor|reflexivity]].
     destruct (plookup _ _); exists []; split; try constructor; reflexivity.
 Qed.
@@ -880,12 +1217,15 @@ Qed.
 Lemma nrun_hosts_length xs : forall s, length (n_hosts (nrun s xs)) = length (n_hosts s).
 Proof.
   induction xs as [|x t IH]; intros s0; simpl; auto. rewrite IH. unfold nstep.
-  destruct x as [i q|i app a known r adj rsock coins|i app a sock]; cbn [nstep_r].
+  destruct x as [i q|i app a known r adj rsock coins|i app a sock|i known r adj lsock rsock seq bl br c1 c2 coins]; cbn [nstep_r].
+  4: { destruct (Nat.ltb i (length (n_hosts s0))); auto. unfold create_m.
+       destruct (cmd_epr_measure _ _ _ _ _ _ _ _ _ _ _) as [[[s1 res] tr] o]. destruct o; cbn [fst n_hosts]; apply upd_length. }
   - destruct (Nat.ltb i (length (n_hosts s0))); auto. destruct (exec _ _ _) as [[s' res] tr]. cbn [fst n_hosts]. apply upd_length.
   - destruct (Nat.ltb i (length (n_hosts s0))); auto. destruct (cmd_epr_keep _ _ _ _ _ _ _) as [[s1 res] tr].
     destruct res as [[v|]| |]; cbn [fst n_hosts]; apply upd_length.
-  - destruct (Nat.ltb i (length (n_hosts s0))); auto. destruct (take_pend _ _ _) as [[[num hd] pd']|]; auto.
-    destruct (hid_of_num _ _); auto. destruct (plookup _ _); cbn [fst n_hosts]; auto. apply upd_length.
+  - destruct (Nat.ltb i (length (n_hosts s0))); auto. destruct (take_pend _ _ _) as [[[e|mn mk mrc] pd']|]; auto.
+    2: { cbn [fst n_hosts]. apply upd_length. }
+    cbv zeta. destruct (hid_of_num _ _); auto. destruct (plookup _ _); cbn [fst n_hosts]; auto. apply upd_length.
 Qed.
 
 (* ---- the theorems ------------------------------------------------------------------------------------------------------------------ *)
@@ -894,14 +1234,15 @@ Proof. unfold hn. destruct (virt nd); [auto|discriminate]. Qed.
 
 (* net_stop_leaves_nothing: N hosts over one network; any list of host-level actions (instructions incl. failing ones,
    allocations, frees, gates -- also between halves simulated on other nodes --, measurements, pair creations towards other
-   hosts, receipts, stops, any number of application generations) that is `clean` (see the head of the file): once every
-   application on every host has been stopped and every delivered half was claimed, NO node holds a qubit, simulates a
-   qubit or keeps a register *)
+   hosts -- create-and-keep as well as measure-directly ones --, receipts, stops, any number of application generations) that
+   is `clean` (see the head of the file): once every application on every host has been stopped and every delivered HALF was
+   claimed, NO node holds a qubit, simulates a qubit or keeps a register.  Outcome records of measure-directly pairs that
+   nobody polled for may still be queued: they hold no qubit (`halves` skips them). *)
 Theorem net_stop_leaves_nothing caps xs :
   let s := nrun (ninit caps) xs in
   cleans (ninit caps) xs ->
   (forall i, i < length caps -> h_units (host_at s i) = []) ->
-  n_pend s = [] ->
+  halves (n_pend s) = [] ->
   forall j, virt (nth_node (n_net s) j) = [] /\ sims (nth_node (n_net s) j) = [] /\
             regs (nth_node (n_net s) j) = [] /\ numRegs (nth_node (n_net s) j) = 0.
 Proof.
@@ -913,7 +1254,7 @@ Proof.
   { intro j. destruct (Nat.ltb_spec j (length (n_hosts s))) as [Hj|Hj].
     - apply hn_nil_virt.
       destruct (xidle j _ _ (g_host s I j Hj) (g_leak s I j Hj)) as [_ X]; [apply U; lia|].
-      cbn [q_net] in X. rewrite P in X.
+      cbn [q_net] in X. unfold pend_at in X. rewrite P in X.
       destruct (hn (nth_node (n_net s) j)) as [|y t]; auto. destruct (X y); simpl; auto.
     - rewrite nth_node_overflow; [reflexivity|]. rewrite <- (g_len s I). exact Hj. }
   intro j. destruct (nothing_held_nothing_left _ (nrun_reachable_core caps xs) V0 j) as (A & B & D). auto.
@@ -995,7 +1336,7 @@ Qed.
 Theorem pending_lookup_faithful caps xs :
   let s := nrun (ninit caps) xs in
   cleans (ninit caps) xs ->
-  forall nd sk num hd, In (nd, sk, num, hd) (n_pend s) ->
+  forall nd sk num hd, In (DK (nd, sk, num, hd)) (n_pend s) ->
     hid_of_num (nth_node (n_net s) nd) num = Some hd /\ In hd (hn (nth_node (n_net s) nd)) /\
     forall p, plookup p (h_qlist (host_at s nd)) <> Some hd.
 Proof.
@@ -1009,7 +1350,7 @@ Proof.
   { rewrite (g_len s I). destruct (Nat.ltb_spec nd (length (nodes (n_net s)))); auto.
     rewrite nth_node_overflow in H1 by auto. simpl in H1. contradiction. }
   intros p Hp. apply (x_exdisj _ _ _ (g_host s I nd Hnd) p hd Hp).
-  apply (in_pend_at _ _ Hin).
+  apply (in_pend_at _ (nd, sk, num, hd) Hin).
 Qed.
 
 (* failed_creation_restores -- the positive statement the former finding C11:epr-temporaries refuted.  In every state the
@@ -1091,14 +1432,15 @@ Definition cleanb (s : nst) (x : nact) : bool :=
       let c := cmd_epr_keep i (mkQ (n_net s) (host_at s i)) known r adj (fresh_id (h_used (host_at s i))) coins in
       if is_done_none (snd (fst c)) then addr_freeb (host_at s i) app a else true
   | ARecv i app a sock =>
-      match take_pend i sock (n_pend s) with None => true | Some _ => addr_freeb (host_at s i) app a end
+      match take_pend i sock (n_pend s) with Some (DK _, _) => addr_freeb (host_at s i) app a | _ => true end
+  | ACreateM _ _ _ _ _ _ _ _ _ _ _ _ => true
   end.
 Fixpoint cleansb (s : nst) (xs : list nact) : bool :=
   match xs with [] => true | x :: t => cleanb s x && cleansb (nstep s x) t end.
 
 Lemma cleanb_ok s x : cleanb s x = true -> clean s x.
 Proof.
-  destruct x as [i q|i app a known r adj rsock coins|i app a sock]; cbn [cleanb clean].
+  destruct x as [i q|i app a known r adj rsock coins|i app a sock|i known r adj lsock rsock seq bl br c1 c2 coins]; cbn [cleanb clean]; [| | |auto].
   - intros H app m E. subst q. cbn [fresh_initb q_host] in H. cbn [q_host].
     destruct (alookup app (h_units (host_at s i))); [discriminate|reflexivity].
   - cbv zeta. unfold addr_freeb.
@@ -1106,8 +1448,8 @@ Proof.
     destruct (is_done_none res) eqn:D.
     + intros H E. destruct (addr_free (host_at s i) app a); [discriminate|discriminate].
     + intros _ E. subst res. discriminate.
-  - unfold addr_freeb. destruct (take_pend i sock (n_pend s)); [|intros _ N; exfalso; apply N; reflexivity].
-    intros H _ E. rewrite E in H. discriminate.
+  - unfold addr_freeb. destruct (take_pend i sock (n_pend s)) as [[[e|mn mk mrc] pd']|]; auto.
+    intros H E. rewrite E in H. discriminate.
 Qed.
 Lemma cleansb_ok xs : forall s, cleansb s xs = true -> cleans s xs.
 Proof.
